@@ -854,6 +854,13 @@ theorem cursor_never_loops {c : Cfg} (hw : c.WF) (pw : PW) (g : List Cell) (as :
   · rw [h] at h1; injection h1 with h1; subst h1; cases h3
   · rw [h] at h1; cases h1
 
+/-- the loop that `cursor_never_loops` excludes existed: on the unrepaired loop (`itemLoopOld`: no test
+for an empty message) the value of `oversize_item_gets_status` exhausts every fuel
+(`oversize_item_loops_before_fix`), each round sending a message without a report -/
+example (fuel : Nat) :
+    itemLoopOld readCfg pwAll (.scalar 0 1148) fuel (CSt.init readCfg []) = .error .loops :=
+  oversize_item_loops_before_fix readCfg pwAll _ (by decide) fuel _ (by simp [CSt.init, WB.push])
+
 /-- **what the attribute section hands to the event section**, at cursor level: the messages sent so
 far and the buffer are those of the size-level state `s1` of `respond` -/
 theorem cursor_attr_section {c : Cfg} (hw : c.WF) (pw : PW) (g : List Cell) {as : List AttrReq} {s1 : ESt}
